@@ -6,11 +6,17 @@ export GOFLAGS=-mod=mod GOPROXY=off GOSUMDB=off GOTOOLCHAIN=local
 export GOCACHE=/verif/.build/gocache
 mkdir -p .build/bin evidence
 rc=0
+go build -o .build/bin/overlaygen ./cmd/overlaygen || rc=1
 for d in cmd/*/; do
   id=$(basename "$d")
   [ -f "$d/main.go" ] || continue
-  [ -f "$d/overlay.conf" ] && continue   # built by ./check with its overlay
-  go build -tags verif -o ".build/bin/$id" "./cmd/$id" || rc=1
+  [ "$id" = overlaygen ] && continue
+  CONF=overlay.base.conf
+  [ -f "$d/overlay.conf" ] && CONF="$CONF,${d}overlay.conf"
+  .build/bin/overlaygen -conf "$CONF" -out ".build/overlay-$id" >/dev/null || rc=1
+  TAGS=verif
+  [ -f "$d/tags" ] && TAGS="verif,$(cat $d/tags)"
+  go build -tags "$TAGS" -overlay ".build/overlay-$id/overlay.json" -o ".build/bin/$id" "./cmd/$id" || rc=1
 done
 if [ -x ref/java/build.sh ]; then ref/java/build.sh || rc=1; fi
 exit $rc
